@@ -567,7 +567,7 @@ setup_done:
     sc_watchdog(g_timeout);
     res->rv = LIB(vnacal_new_solve(vnp));
     res->err = errno;
-    alarm(0);
+    vt_watchdog_stop();
     hk.active = 0;
     res->lm_events = hk.total;
     res->lm_exits = hk.exits;
